@@ -132,7 +132,10 @@ fn run_input(ctx: &mut Ctx, player: &mut Player, input: &Value) {
     let world = &fault.scn.world;
     let parents = parents_of(world);
     let aff = affected(world, &parents, &broken);
-    let owner = owners(world);
+    // Owners from both descriptions: a fault may change an object's payload
+    // (e.g. an overclaiming ASPA gets another customer AS).
+    let mut owner = owners(&base.scn.world);
+    owner.extend(owners(world));
     let last = fault.obs.len() - 1;
     let tas = &fault.scn.runs[last].serve.tas;
     let exempt_res = affected_res(world, &aff, tas);
